@@ -140,12 +140,14 @@ def rule_abi(b):
         free = tg.const_reg_name("FREE")
         for k in range(0, 21):
             pats = list(itertools.product(("Ext", "Prd"), repeat=min(k, half)))
-            if len(pats) > 16:
+            if len(pats) > 16 and ctx.tier != "thorough":
                 # all-Ext, all-Prd and the alternations are enough beyond the pattern length that matters
                 pats = pats[:1] + pats[-1:] + [p for p in pats if all(p[i] != p[i + 1] for i in range(len(p) - 1))]
             for pat in pats:
                 ctxv = Vec([binding(i, pat[i] if i < len(pat) else "Ext") for i in range(k)])
                 arg_positions = sorted({0, k - 1, k // 2}) if k > 0 else []
+                if ctx.tier == "thorough":
+                    arg_positions = list(range(k))
                 for ap in arg_positions:
                     if ap < 0:
                         continue
@@ -316,3 +318,10 @@ def rule_abi_args_only(ctx):
         r2.floor = 0
         out.append(r2)
     return out
+
+
+def rule_abi_cached(b):
+    def rule(ctx):
+        return ctx.memo("abi-" + b, lambda: rule_abi(b)(ctx))
+    rule.__name__ = "rule_abi_" + b
+    return rule
